@@ -70,7 +70,7 @@ def run_variant(pid, module, variant, repo="/repo"):
             ap = subprocess.run(["git", "apply", "--whitespace=nowarn", "--include=src/*", "--include=conf/*", variant["patch"]], cwd=tmp, capture_output=True)
             if ap.returncode != 0:
                 return "skipped", None, "patch does not apply: %s" % ap.stderr.decode()[:200]
-            edits = []
+            edits = variant.get("edits") or []  # a stored refactoring with a breaking edit on top of it
         else:
             edits = variant.get("edits") or [(variant["file"], variant["old"], variant["new"])]
         for e in edits:
